@@ -297,6 +297,15 @@ def run(ctx):
     source_facts.check_messages(ctx)
     hs, cases = build_cases(ctx)
     ctx.notes.append("hosts: %s" % ", ".join("%s(n=%d)" % (nm, len(h["players"])) for nm, h in hs))
+    # a NEGATIVE reward written in another of Python's real-number types: outside the typed universe of the Coq model
+    # (not sent to it), but the documented rule 'a negative reward' applies to it all the same, so it is judged
+    import fractions, decimal
+    for nm, h in hs[:3]:
+        for k, val in enumerate((fractions.Fraction(-3, 2), decimal.Decimal("-2"), fractions.Fraction(-1, 10 ** 9))):
+            d = copy.deepcopy(h)
+            d["rewards"][(k * 2) % len(d["rewards"])] = val
+            cases.append(dict(host=nm, rule="negative reward (%s)" % type(val).__name__, m=dict(op="set_reward", at=(k * 2) % len(d["rewards"]), v=repr(val)),
+                              d=d, judge_anyway=True))
     jobs = []
     for c in cases:
         e = enc(c["d"])
@@ -304,12 +313,12 @@ def run(ctx):
         c["jv"] = len(jobs)
         jobs.append(dict(op="c09_validate", game=e, limit=5))
         c["js"] = None
-        if c["m"] is None or (not c["wf"] and not c["out"]):
+        if c["m"] is None or (not c["wf"] and (not c["out"] or c.get("judge_anyway"))):
             c["js"] = len(jobs)
             jobs.append(dict(op="solve", game=e, prune=True, limit=10))
             jobs.append(dict(op="solve", game=e, prune=False, limit=10))
         c["jq"] = None
-        if c["m"] is not None and not c["wf"] and not c["out"] and len(jobs) % 2 == 0:
+        if c["m"] is not None and not c["wf"] and (not c["out"] or c.get("judge_anyway")) and len(jobs) % 2 == 0:
             # every other malformed case: three solves through ONE StochasticGame object (a caller that falls back from the
             # pruned to the unpruned mode after the first refusal); each must be refused again
             c["jq"] = len(jobs)
@@ -327,7 +336,11 @@ def run(ctx):
         ctx.count("class:" + ("outside-universe" if out else "well-formed" if wf else "malformed"))
         if c["m"] is not None:
             ctx.nontrivial.add((c["host"], mkey(c["m"])))
-        if out:
+        if out and c.get("judge_anyway"):
+            judge(ctx, c, "check_game+init_states", rv)
+            judge(ctx, c, "solve(prune_states=True)", rt)
+            judge(ctx, c, "solve(prune_states=False)", rf)
+        elif out:
             pass                                     # compared with the model below, not judged
         elif not wf:
             judge(ctx, c, "check_game+init_states", rv)
